@@ -6,6 +6,7 @@ import (
 	"encoding/binary"
 	"errors"
 	"fmt"
+	"os"
 	"testing"
 
 	"github.com/parquet-go/parquet-go"
@@ -35,7 +36,7 @@ type Case struct {
 	ColKeys   []int          `json:"colkeys,omitempty"` // leaf columns with their own key
 	Prefix    []byte         `json:"prefix,omitempty"`
 	Seed      uint64         `json:"seed"`
-	Missing   int            `json:"missing"` // -1, or index into ColKeys of the key the reader lacks
+	Missing   int            `json:"missing"`         // -1, or index into ColKeys of the key the reader lacks
 	Wrong     string         `json:"wrong,omitempty"` // "" | "footer" | "column"
 	Tampers   []Tamper       `json:"tampers"`
 	Seeks     []int          `json:"seeks"`
@@ -52,7 +53,22 @@ func genCase(t *rapid.T) Case {
 	c.Opts.Pool = ""
 	c.Opts.PageBuf = []int{64, 128, 512, 0}[rapid.IntRange(0, 3).Draw(t, "pb")]
 	c.Opts.MaxRows = int64([]int{0, 0, 30, 100}[rapid.IntRange(0, 3).Draw(t, "mr")])
+	manyPages := false
+	// ordinals above 255 (the AAD stores them as little-endian int16): many row groups, or many pages in a chunk
+	switch rapid.IntRange(0, 15).Draw(t, "ordinals") {
+	case 5:
+		c.Plan = gen.RowsAtLeast(t, &c.Schema, 5, 258, 300, gen.ValueOpts{Style: gen.SmallDom, Leaf: gen.Opts{MaxBytes: 8}})
+		c.Opts.MaxRows = 1
+	case 6:
+		// pages are cut every 64 rows at the earliest: 257 pages need 16448 rows in one row group
+		c.Plan = gen.RowsAtLeast(t, &c.Schema, 5, 16600, 17000, gen.ValueOpts{Style: gen.SmallDom, Leaf: gen.Opts{MaxBytes: 8}})
+		c.Opts.MaxRows, c.Opts.PageBuf = 0, 32
+		manyPages = true
+	}
 	c.Ops = gen.WriteOps(t, c.Plan.NumRows())
+	if manyPages {
+		c.Ops = nil // one row group
+	}
 	c.EncFooter = rapid.Bool().Draw(t, "encfooter")
 	for i := range cols {
 		if rapid.IntRange(0, 2).Draw(t, "colkey") == 0 {
@@ -69,6 +85,9 @@ func genCase(t *rapid.T) Case {
 	}
 	c.Wrong = []string{"", "", "", "footer", "column"}[rapid.IntRange(0, 4).Draw(t, "wrong")]
 	nt := rapid.IntRange(0, kit.Pick(10, 60)).Draw(t, "ntampers")
+	if manyPages {
+		nt = min(nt, 3)
+	}
 	for i := 0; i < nt; i++ {
 		c.Tampers = append(c.Tampers, Tamper{
 			Kind: []string{"flip", "flip", "flip", "swap", "transplant"}[rapid.IntRange(0, 4).Draw(t, "tk")],
@@ -285,6 +304,9 @@ func runCase(c Case, o *kit.Obs) *kit.Failure {
 	cfg, ring, rk := c.config(cols)
 	feat := fmt.Sprintf("{footer=%s}", map[bool]string{true: "encrypted", false: "plaintext"}[c.EncFooter])
 	data, err := write(c, cols, rows, cfg)
+	if os.Getenv("VERIF_DEBUG") != "" && len(rows) > 1000 {
+		fmt.Println("DEBUG0 rows", len(rows), err, c.Opts.PageBuf, c.Opts.MaxRows)
+	}
 	if err != nil {
 		o.Rejected()
 		o.Class("write-error")
@@ -340,6 +362,7 @@ func runCase(c Case, o *kit.Obs) *kit.Failure {
 		return rk.Footer
 	}
 	refStreams := make([][]ref.LV, len(cols))
+	maxPages := 0
 	for gi := range ef.RowGroups {
 		for ci := range ef.RowGroups[gi].Chunks {
 			ch := &ef.RowGroups[gi].Chunks[ci]
@@ -355,6 +378,7 @@ func runCase(c Case, o *kit.Obs) *kit.Failure {
 			if err := ef.WalkEncryptedChunk(gi, ci, colKey(ci), ref.LibModules); err != nil {
 				return kit.Failf("c18/independent-reader"+feat, "%s: %v", where, err)
 			}
+			maxPages = max(maxPages, len(ch.Pages))
 			s, err := ef.DecodeChunk(ef.Cols[ci], cols[ci].Leaf, ch)
 			if err != nil {
 				return kit.Failf("c18/independent-reader"+feat, "%s: %v", where, err)
@@ -511,6 +535,11 @@ func runCase(c Case, o *kit.Obs) *kit.Failure {
 	o.Class("footer-" + map[bool]string{true: "encrypted", false: "plaintext"}[c.EncFooter])
 	o.ClassIf(len(c.ColKeys) > 0, "column-keys")
 	o.ClassIf(len(ef.RowGroups) >= 2, "multi-rowgroup")
+	if os.Getenv("VERIF_DEBUG") != "" && len(rows) > 2000 {
+		fmt.Println("DEBUG rows", len(rows), "rowgroups", len(ef.RowGroups), "maxPages", maxPages, "pagebuf", c.Opts.PageBuf)
+	}
+	o.ClassIf(len(ef.RowGroups) > 256, "row-group-ordinal-above-255")
+	o.ClassIf(maxPages > 256, "page-ordinal-above-255")
 	if (len(ef.RowGroups) >= 2 && len(c.ColKeys) >= 1) || swaps > 0 {
 		o.NonTrivial()
 	}
